@@ -256,6 +256,8 @@ class Expect:
         self.announce = []    # phantom norm hex
         self.probes = []
         self.shares = 0
+        self.lost = []        # families that satisfy every listed condition but are dropped with an unbuildable sibling
+        self.why = None
 
 
 def norm_hex(hexraw):
@@ -287,6 +289,7 @@ def expect_msg(cfg, live, tracked, m, o):
     libver = p["libver"] or 0
     secret = m["secret"] or ""
     drafts = []
+    failed = []
     for fam in fams:
         sel = o["sel4"] if fam == 4 else o["sel6"]
         why = None
@@ -316,18 +319,30 @@ def expect_msg(cfg, live, tracked, m, o):
         if why is None and cfg["geo_fail"]:
             why = "geoip"
         if why is not None:
-            e.err = True
-            e.why = why
-            return e
+            failed.append((fam, why))
+            continue
         if rr.get("port") is not None:
             port = rr["port"] % 65536
         drafts.append({"fam": fam, "phantom": norm_hex(phantom), "port": port})
+    src = m["source"] or 0
+    if failed:
+        # the code drops the whole message; a family that could be built and meets every listed condition is lost
+        e.err = True
+        e.why = failed[0][1]
+        for d in drafts:
+            pip = ip_of(d["phantom"])
+            needs = not (p["flags"] is not None and p["flags"]["prescanned"]) and pip.version == 4
+            if (not in_any(cfg["pblock"], pip)) and o["covert_ok"] and (not needs or not live) and \
+                    (d["phantom"], transport, secret) not in tracked:
+                e.lost.append((d["fam"], failed[0][0], failed[0][1]))
+        return e
     src = m["source"] or 0
     for d in drafts:
         pip = ip_of(d["phantom"])
         blocked = in_any(cfg["pblock"], pip)
         key = (d["phantom"], transport, secret)
         d["needs_probe"] = not (p["flags"] is not None and p["flags"]["prescanned"]) and pip.version == 4
+        d["retry_after_rejection"] = (key in tracked and tracked[key] is False)
         conds = {
             "fresh": key not in tracked,
             "phantom-not-blocked": not blocked,
@@ -343,7 +358,7 @@ def expect_msg(cfg, live, tracked, m, o):
         d["share"] = (early and conds["not-live"] and src == 1 and cfg["share"] and
                       not (pip.version == 6 and bool(p["v4"])))
         if conds["fresh"] and (src == 1 or not blocked):
-            tracked.add(key)
+            tracked[key] = d["admissible"]
         e.drafts.append(d)
     return e
 
@@ -447,9 +462,9 @@ def run(ctx):
                        "rejection) and hand-built incomplete registrations; a case is non-trivial if hash-distinct, "
                        "counted per outcome class")
     ctx.coq_props(extra_dirs=["C06"])
-    rc, out = ctx.coq_make(["C07/Examples.vo"])
+    rc, out = ctx.coq_make(["C07/Examples.vo", "C07/Refuted.vo"])
     if rc != 0:
-        ctx.broken("examples", "coq/C07/Examples.v (non-vacuity) no longer checks: %s" % out[-400:])
+        ctx.broken("examples", "coq/C07/Examples.v (non-vacuity) or Refuted.v (witnesses of the open findings) no longer checks: %s" % out[-400:])
 
     cases = gen_cases(ctx)
     payload = [{"cfg": c["cfg"], "live": c["live"], "steps": c["steps"]} for c in cases]
@@ -472,7 +487,7 @@ def run(ctx):
     terms = []
     for ci, (c, rs) in enumerate(zip(cases, res["results"])):
         cfg, live = c["cfg"], c["live"]
-        tracked = set()
+        tracked = {}
         announced_so_far = set()
         steps_terms = []
         info = {"cfg": cfg, "live": live, "steps": c["steps"], "row": c["row"], "kind": c["kind"]}
@@ -527,6 +542,10 @@ def oracle_msg(ctx, e, obs, m, cfg, live, info):
     # parse errors and the number of drafts are internal: the property speaks about announcements, lookups,
     # probes and shares, so only those are judged (a message that cannot be built must have none of them)
     if e.err:
+        for fam, badfam, why in e.lost:
+            ctx.fail("sibling-family-unbuildable/ipv%d-registration-lost" % fam,
+                     "the IPv%d registration of a dual-stack message meets every admission condition but is not admitted: the "
+                     "message is dropped as a whole because its IPv%d registration cannot be built (%s)" % (fam, badfam, why), info)
         if obs["announced"] or obs["probes"] or obs["shares"]:
             ctx.fail("dropped-message-had-effects/" + e.why, "a message that cannot be built (%s) had effects: %s"
                      % (e.why, {k: obs[k] for k in ("err", "probes", "announced")}), info)
@@ -562,6 +581,11 @@ def oracle_msg(ctx, e, obs, m, cfg, live, info):
         if not d["probe"] and d["phantom"] in prb:
             ctx.fail("probe-not-needed/" + ("prescanned" if not d["needs_probe"] else "earlier-condition-failed"),
                      "a liveness probe was sent although none is required", dict(info, conditions=d["conds"]))
+        if d["retry_after_rejection"] and all(v for k, v in d["conds"].items() if k != "fresh") and d["phantom"] not in ann:
+            ctx.fail("readmission/ignored-after-rejection",
+                     "a registration that meets every admission condition is ignored because an earlier registration with the "
+                     "same identifier was tracked and then rejected (it stays tracked, not valid, until it expires)",
+                     dict(info, conditions=d["conds"]))
         if d["share"]:
             nshare += 1
         outcome.append("announced" if d["admissible"] else "rejected:" + [k for k, v in d["conds"].items() if not v][0])
